@@ -79,6 +79,7 @@ fn main() {
             sup::check_main(&worlds, check)
         }
         Some("worker") => {
+            limit_memory();
             // worker <world> <prop> <tier> <seed> <start> <stride> <count> <deadline> <avoid>
             let world = worlds.iter().find(|w| w.name == args[2]).expect("world");
             let wargs = worker::WorkerArgs {
@@ -98,6 +99,7 @@ fn main() {
         }
         Some("exec-tape") => {
             // exec-tape <world> <prop> <tier> <avoid>   (tape as JSON on stdin)
+            limit_memory();
             core::set_quiet(false);
             let world = worlds.iter().find(|w| w.name == args[2]).expect("world");
             let ctx = Ctx {
@@ -118,6 +120,7 @@ fn main() {
         }
         Some("exec-index") => {
             // exec-index <world> <prop> <tier> <avoid> <seed> <index>
+            limit_memory();
             core::set_quiet(false);
             let world = worlds.iter().find(|w| w.name == args[2]).expect("world");
             let ctx = Ctx {
@@ -209,4 +212,18 @@ fn main() {
         _ => usage(),
     };
     std::process::exit(code);
+}
+
+/// Address-space cap for processes that execute runs: code under test that spins while
+/// allocating dies with an allocation failure (an attributable abort) instead of taking
+/// the machine down. SIMCTL_MEM_LIMIT_MB overrides the 3 GiB default, 0 disables.
+fn limit_memory() {
+    let mb: u64 = std::env::var("SIMCTL_MEM_LIMIT_MB").ok().and_then(|v| v.parse().ok()).unwrap_or(3072);
+    if mb == 0 {
+        return;
+    }
+    let lim = libc::rlimit { rlim_cur: mb << 20, rlim_max: mb << 20 };
+    unsafe {
+        libc::setrlimit(libc::RLIMIT_AS, &lim);
+    }
 }
